@@ -90,6 +90,7 @@ type MemDS struct {
 	crashAfter int // -1: never
 	crashed    bool
 	// FailWrites makes the next n durable writes fail transiently (without crashing).
+	failAt     int // > 0: the failAt-th write from now fails once
 	failWrites int
 	// OnWrite, if set, is called (outside the lock) after every successful durable write.
 	OnWrite func(WriteRec)
@@ -131,6 +132,13 @@ func (d *MemDS) Crashed() bool {
 func (d *MemDS) FailNextWrites(n int) {
 	d.mu.Lock()
 	d.failWrites = n
+	d.mu.Unlock()
+}
+
+// FailWriteAt makes exactly the k-th durable write from now (k >= 1) fail transiently; the process survives it.
+func (d *MemDS) FailWriteAt(k int) {
+	d.mu.Lock()
+	d.failAt = k
 	d.mu.Unlock()
 }
 
@@ -188,6 +196,13 @@ func (d *MemDS) apply(op string, items []kv) error {
 		d.crashed = true
 		d.mu.Unlock()
 		return ErrCrashed
+	}
+	if d.failAt > 0 {
+		d.failAt--
+		if d.failAt == 0 {
+			d.mu.Unlock()
+			return errors.New("verif: transient datastore write error")
+		}
 	}
 	if d.failWrites > 0 {
 		d.failWrites--
